@@ -68,6 +68,8 @@ theorem CT_GradientStop_CT_GradientStop_choice_groups : [(row_CT_GradientStop_CT
 
 theorem CT_GroupShapeProperties_CT_GroupShapeProperties_adequate : [row_CT_GroupShapeProperties_CT_GroupShapeProperties_xfrm, row_CT_GroupShapeProperties_CT_GroupShapeProperties_effectLst].all Row.adequate = true := by decide +kernel
 
+theorem CT_GroupShape_CT_GroupShape_adequate : [row_CT_GroupShape_CT_GroupShape_hw_CT_GroupShape_add_autoshape, row_CT_GroupShape_CT_GroupShape_hw_CT_GroupShape_add_cxnSp, row_CT_GroupShape_CT_GroupShape_hw_CT_GroupShape_add_freeform_sp, row_CT_GroupShape_CT_GroupShape_hw_CT_GroupShape_add_grpSp, row_CT_GroupShape_CT_GroupShape_hw_CT_GroupShape_add_pic, row_CT_GroupShape_CT_GroupShape_hw_CT_GroupShape_add_placeholder, row_CT_GroupShape_CT_GroupShape_hw_CT_GroupShape_add_table, row_CT_GroupShape_CT_GroupShape_hw_CT_GroupShape_add_textbox, row_CT_GroupShape_CT_GroupShape_hw__BaseGroupShapes__add_chart_graphicFrame, row_CT_GroupShape_CT_GroupShape_hw__BaseGroupShapes_add_ole_object, row_CT_GroupShape_CT_GroupShape_hw_SlideShapes_add_movie, row_CT_GroupShape_CT_GroupShape_hw__BaseGroupShapes_add_group_shape_members_].all Row.adequate = true := by decide +kernel
+
 theorem CT_HslColor_CT_HslColor_adequate : [row_CT_HslColor_CT_HslColor_lumMod, row_CT_HslColor_CT_HslColor_lumOff].all Row.adequate = true := by decide +kernel
 
 theorem CT_Layout_CT_Layout_adequate : [row_CT_Layout_CT_Layout_manualLayout].all Row.adequate = true := by decide +kernel
@@ -160,7 +162,7 @@ theorem CT_SlideMaster_CT_SlideMaster_adequate : [row_CT_SlideMaster_CT_SlideMas
 
 theorem CT_SlideTiming_CT_SlideTiming_adequate : [row_CT_SlideTiming_CT_SlideTiming_tnLst].all Row.adequate = true := by decide +kernel
 
-theorem CT_Slide_CT_Slide_adequate : [row_CT_Slide_CT_Slide_clrMapOvr, row_CT_Slide_CT_Slide_timing].all Row.adequate = true := by decide +kernel
+theorem CT_Slide_CT_Slide_adequate : [row_CT_Slide_CT_Slide_clrMapOvr, row_CT_Slide_CT_Slide_timing, row_CT_Slide_CT_Slide_hw_CT_Slide__add_childTnLst].all Row.adequate = true := by decide +kernel
 
 theorem CT_SolidColorFillProperties_CT_SolidColorFillProperties_adequate : [row_CT_SolidColorFillProperties_CT_SolidColorFillProperties_scrgbClr, row_CT_SolidColorFillProperties_CT_SolidColorFillProperties_srgbClr, row_CT_SolidColorFillProperties_CT_SolidColorFillProperties_hslClr, row_CT_SolidColorFillProperties_CT_SolidColorFillProperties_sysClr, row_CT_SolidColorFillProperties_CT_SolidColorFillProperties_schemeClr, row_CT_SolidColorFillProperties_CT_SolidColorFillProperties_prstClr].all Row.adequate = true := by decide +kernel
 
